@@ -278,9 +278,8 @@ impl<'store> ResultItem<'store, Annotation> {
         resource: impl Request<TextResource>,
     ) -> Option<ResultTextSelectionSet<'store>> {
         let mut textselections: Vec<ResultTextSelection<'store>> = Vec::new();
-        let handle = resource
-            .to_handle(self.rootstore())
-            .expect("resource must have handle");
+        //(a resource that does not exist holds none of the text)
+        let handle = resource.to_handle(self.rootstore())?;
         for tsel in self.textselections() {
             if tsel.resource().handle() == handle {
                 textselections.push(tsel);
